@@ -14,6 +14,7 @@ limitations under the License.
 package metadata
 
 import (
+	"errors"
 	"fmt"
 	"reflect"
 	"strings"
@@ -110,6 +111,9 @@ func resolveAliases(md map[string]string, t reflect.Type) error {
 	}
 
 	// Error if result is not pointer to struct, or pointer to pointer to struct
+	if t == nil {
+		return errors.New("not a pointer: nil")
+	}
 	if t.Kind() != reflect.Pointer {
 		return fmt.Errorf("not a pointer: %s", t.Kind().String())
 	}
@@ -140,7 +144,10 @@ func resolveAliasesInType(md map[string]string, keys map[string]string, t reflec
 
 		// Check if this is an embedded struct
 		if mapstructureTag == ",squash" {
-			resolveAliasesInType(md, keys, currentField.Type)
+			// Only structs can be squashed; anything else is reported by mapstructure
+			if currentField.Type.Kind() == reflect.Struct {
+				resolveAliasesInType(md, keys, currentField.Type)
+			}
 			continue
 		}
 
